@@ -5,7 +5,7 @@ from ..gen import KEY_POOL, PREFIX, hx, rng_for
 ENGINES = ["memkv", "badger", "tikv"]
 
 EXTRA_PROP_MODULES = [("KB.Props.C07Race", "KB.C07Race"), ("KB.Props.C07Par", "KB.C07Par"), ("KB.Props.C07Ranges", "KB.C07Ranges"), ("KB.Props.OrderC07", "KB.OrderC07"),
-                      ("KB.Props.C07Expire", "KB.C07Expire")]
+                      ("KB.Props.C07Expire", "KB.C07Expire"), ("KB.Props.C07Atomic", "KB.C07Atomic")]
 
 
 def probe_reads(keys, revs):
@@ -236,6 +236,226 @@ def expiry_oracle(case):
     return None
 
 
+# ---------------------------------------------------------------- a ttl pass interrupted around the expiry batch (tikv)
+
+MAGIC = bytes.fromhex("57fb808b")
+INT_SIGNATURE = "interrupted-ttl-pass-left-unwritable-key"
+INT_OFFSETS = [1, 0, 2, -1]            # position of the fault / crash point relative to the expiry batch's call index
+INT_KINDS = ["crash", "f", "c"]
+
+
+def is_expiry_call(call):
+    """an entry of the delete-call log that removes the revision record of an Event through the ttl pass: the expiry batch
+    `expire:<ik>+<n>` - or, when the model follows a source tree that still makes per-record calls (regenerated fact
+    `expiryCallShape`), the compare-and-delete `delcur:<ik>` of the revision record of a key under <prefix>/events/"""
+    kind, _, rest = call.partition(":")
+    ik = bytes.fromhex(rest.split("+")[0])
+    return kind == "expire" or (kind == "delcur" and ik.startswith(MAGIC + PREFIX + b"/events/") and ik.endswith(b"\x24" + bytes(8)))
+
+
+def expiry_batch_calls(lines):
+    """the delete-call log of the LAST compaction of `lines` run unmasked on the model; the indexes of its expiry
+    batches (`expire:<ik>+<n>`)"""
+    out = core.run_model("backend", lines + ["dellog"])
+    log = out[-1].split() if out else []
+    calls = [] if len(log) < 2 or log[0] != "dellog" or log[1] == "-" else log[1].split(",")
+    return calls, [j for j, c in enumerate(calls) if is_expiry_call(c)]
+
+
+def interrupted_expiry_case(seed, i, engine="tikv", offset=None, kind=None):
+    """The ttl pass (engine without native ttl: events ttl 1 s, model clock = the script's sleeps) is interrupted around
+    the ONE write batch that removes an expired Event: expired Event `e` with 2..3 versions next to non-event keys (one of
+    them deleted, so that the ordinary rules make calls before and after the batch) and, every other history, a second
+    Event; mark, sleep past the ttl, non-event writes; `compact R` with a crash point (`crash=n`: the calls from n on are
+    not executed) or a failing call (`m=n:f` plain error / `m=n:c` failed-condition error) at every position n around the
+    batch's call index (taken from the model's delete-call log). Afterwards: reads at latest and at R, the store dump,
+    and for EVERY key: read it; a guarded update naming the revision of its newest acknowledged change; read it; a
+    create; read it. Oracle (`interrupted_oracle`, on the implementation's transcript): a key that READS present at
+    revision r accepts the update naming r; a key that reads absent accepts the create; an Event has either no record
+    left or its revision record together with the version it names."""
+    r = rng_for(seed, "c07int/%d" % i)
+    ev = [EXP_EVENT_KEYS[i % 3]] + ([EXP_EVENT_KEYS[(i + 1) % 3]] if i % 2 == 1 else [])
+    low, high = PREFIX + b"/a", PREFIX + b"/z"          # sort below / above the events directory
+    other = [low, high, r.choice([PREFIX + b"/pods/events/p1", PREFIX + b"/eventsx/q"])]
+    keys = sorted(ev + other)
+    lines = [hist.cfg_line(engine, eventsttl=1, ttl=TTL_MS)]
+    rev = hist.INIT
+    newest = {}                    # key -> revision of its newest acknowledged change (None: deleted)
+
+    def w(kind, key, val=b""):
+        nonlocal rev
+        rev += 1
+        if kind == "create":
+            lines.append("create %s %s" % (hx(key), hx(val)))
+        elif kind == "update":
+            lines.append("update %s %s %d" % (hx(key), hx(val), newest[key]))
+        else:
+            lines.append("delete %s %d" % (hx(key), newest[key]))
+        lines.append("rev")
+        newest[key] = None if kind == "delete" else rev
+
+    for k in keys:
+        w("create", k, b"v1")
+    for k in ev:
+        for n in range(r.randint(1, 2)):
+            w("update", k, b"e%d" % (n + 2))
+    w("update", high, b"h2")
+    w("update", low, b"l2")
+    w(r.choice(["delete", "update"]), low, b"l3")           # a deletion marker / superseded versions below the Events
+    if r.random() < 0.5:
+        w("delete", high)
+    # the mark; every Event's newest change is older than the ttl from here on. Two histories out of three: the marking
+    # compaction dies before its first delete (every superseded version and deletion marker is still there for the pass
+    # under test: several versions in the batch, ordinary calls before and after it)
+    lines += ["compact 0 crash=0" if i % 3 != 2 else "compact 0", "sleep 1300"]
+    w("update", other[2], b"n2")
+    if len(ev) == 2 and r.random() < 0.5:
+        w("update", ev[1], b"young")                         # the second Event is renewed: it must stay
+    R = rev
+    calls, batches = expiry_batch_calls(lines + ["compact %d" % R])
+    if not batches:
+        raise RuntimeError("C07: the compaction that should expire %s makes no expiry batch (calls: %s)" % (ev[0], calls))
+    j = batches[(i // 12) % len(batches)]
+    offset = INT_OFFSETS[i % 4] if offset is None else offset
+    kind = INT_KINDS[(i // 4) % 3] if kind is None else kind
+    n = max(0, j + offset)
+    mask = "crash=%d" % n if kind == "crash" else "m=%d:%s" % (n, kind)
+    lo, hi = hx(PREFIX + b"/"), hx(PREFIX + b"0")
+    probes = []
+    for q in (0, R):
+        probes += ["get %s %d" % (hx(k), q) for k in keys] + ["list %s %s %d 0" % (lo, hi, q)]
+    lines += ["echo before"] + probes
+    if kind == "iter":
+        # the snapshot read that collects the versions for the batch fails (its 1st / 2nd Next): `expireEvent` returns
+        # that error without having made a call. Not in the model (its masks are on calls): judged by the oracle only
+        ik = bytes.fromhex(calls[j].split(":")[1].split("+")[0])
+        mask = "iterfault %d from=%s" % (1 + i % 2, hx(ik[:-8] + (1).to_bytes(8, "big")))
+        lines += [mask, "compact %d" % R, "iterfault 0"]
+    else:
+        lines.append("compact %d %s" % (R, mask))
+    lines += ["echo after"] + probes + ["dump", "dellog"]
+    for k in keys:
+        lines += ["echo key %s" % hx(k), "get %s 0" % hx(k)]
+        if newest[k] is not None:
+            lines += ["update %s %s %d" % (hx(k), hx(b"upd"), newest[k]), "rev", "get %s 0" % hx(k)]
+        lines += ["create %s %s" % (hx(k), hx(b"again")), "rev", "get %s 0" % hx(k)]
+    lines += ["echo end", "list %s %s 0 0" % (lo, hi), "dump"]
+    return core.Case("backend", lines, {"engine": engine, "interrupted": True, "R": R, "mask": mask, "events": ev, "keys": keys,
+                                       "newest": {hx(k): v for k, v in newest.items()}, "batch_call": j, "calls": calls,
+                                       "skipped": [], "iter": kind == "iter"},
+                     compare=(lambda op: False) if kind == "iter" else None)
+
+
+def interrupted_vacuity(prop, cases):
+    """the injected failures must have been what the scripts say"""
+    for c in cases:
+        if not c.meta.get("interrupted"):
+            continue
+        log = next((out for line, out in zip(c.lines, c.impl) if line == "dellog"), "dellog -")
+        made = [] if log.split()[1:] in ([], ["-"]) else log.split()[1].split(",")
+        want = c.meta["calls"][c.meta["batch_call"]]
+        if c.meta["iter"]:
+            if want in made:
+                raise RuntimeError("%s: the iterator fault of `%s` did not hit the version iteration of the expiry batch: %s was made"
+                                   % (prop, c.meta["mask"], want))
+        elif c.meta["mask"].startswith("m=") and int(c.meta["mask"][2:].split(":")[0]) == c.meta["batch_call"] and want not in made:
+            raise RuntimeError("%s: `%s` was aimed at the expiry batch %s, which was not made (%s)" % (prop, c.meta["mask"], want, made))
+
+
+def interrupted_oracle(case):
+    ev = case.meta["events"]
+    sect, cur = {"before": [], "after": []}, None
+    key, dump_hit = None, None
+    per_key = {}
+    for i, (line, out) in enumerate(zip(case.lines, case.impl)):
+        t, o = line.split(), out.split()
+        if not t or not o:
+            continue
+        if t[0] == "echo":
+            cur = t[1]
+            if cur == "key":
+                key = hist.unhx(t[2])
+                per_key[key] = []
+            continue
+        if t[0] == "compact" and cur == "before":
+            cur = None
+        if cur in ("before", "after") and t[0] in ("get", "list"):
+            sect[cur].append((i, line, out))
+        if cur == "key" and t[0] in ("get", "update", "create"):
+            per_key[key].append((i, line, out))
+        if t[0] == "dump" and cur == "after" and len(o) == 2 and o[1] != "-":
+            # an Event has no record left, or its revision record together with the version it names
+            for e in ev:
+                revs, named = [], None
+                for kv in o[1].split(","):
+                    ik, val = (bytes.fromhex(x) if x != "-" else b"" for x in kv.split("="))
+                    if ik.startswith(MAGIC) and ik[4:-9] == e:
+                        revs.append(int.from_bytes(ik[-8:], "big"))
+                        if revs[-1] == 0:
+                            named = int.from_bytes(val[:8], "big")
+                if revs and (0 not in revs or named not in revs) and dump_hit is None:
+                    dump_hit = ("line %d: after `%s` the Event %s has the records %s (0 = revision record%s): the interrupted ttl pass "
+                            "removed it in part - %s" % (i + 1, next(l for l in case.lines if l.startswith("compact") and case.meta["mask"] in l), e,
+                                                         sorted(revs), ", naming revision %d" % named if named else "",
+                                                         "versions without their revision record" if 0 not in revs else
+                                                         "a revision record without the version it names"), INT_SIGNATURE)
+    # reads at revisions >= R of the keys that are not Events: unchanged (C07)
+    for (i, l1, o1), (_, l2, o2) in zip(sect["before"], sect["after"]):
+        t, t1, t2 = l1.split(), o1.split(), o2.split()
+        if l1 != l2 or "err" in t1[:2] or "err" in t2[:2]:
+            continue
+        if t[0] == "get":
+            if hist.unhx(t[1]) in ev:
+                continue
+            d1, d2 = t1[2:], t2[2:]
+        else:
+            d1 = [kv for kv in hist.parse_kvs(t1[3]) if kv[0] not in ev]
+            d2 = [kv for kv in hist.parse_kvs(t2[3]) if kv[0] not in ev]
+        if d1 != d2:
+            return ("read `%s` returned %s before the interrupted compaction at %d and %s after, on keys that are not Events"
+                    % (l1, o1[:200], case.meta["R"], o2[:200]), "read-changed")
+    # every key stays writable with normal semantics
+    for k, st in per_key.items():
+        present = None
+        for (i, line, out) in st:
+            t, o = line.split(), out.split()
+            if t[0] == "get":
+                if len(o) < 3 or o[1] == "err":
+                    return ("line %d: %s -> %s after the interrupted ttl pass" % (i + 1, line, out), INT_SIGNATURE)
+                kv = hist.parse_kv(o[2])
+                present = kv[2] if kv else None
+            elif t[0] == "update":
+                if present is not None and int(t[3]) == present and o[1] != "ok":
+                    return ("line %d: after `compact %d %s` the key %s READS present at revision %d, yet the guarded update naming "
+                            "%d is refused (%s -> %s): the interrupted ttl pass left versions without their revision record"
+                            % (i + 1, case.meta["R"], case.meta["mask"], k, present, present, line, out), INT_SIGNATURE)
+                if present is not None and int(t[3]) != present:
+                    return ("line %d: %s reads present at revision %d, its newest acknowledged change is %s"
+                            % (i + 1, k, present, t[3]), "read-changed")
+                if present is None and k not in ev:
+                    return ("line %d: %s is not an Event, its newest acknowledged change is at %s, and it reads absent after the "
+                            "compaction" % (i + 1, k, t[3]), "non-event-key-removed")
+            elif t[0] == "create":
+                if present is None and o[1] != "ok":
+                    return ("line %d: after `compact %d %s` the key %s READS absent, yet it cannot be created (%s -> %s): the "
+                            "interrupted ttl pass left a part of it behind" % (i + 1, case.meta["R"], case.meta["mask"], k, line, out),
+                            INT_SIGNATURE)
+                if present is not None and o[1] == "ok":
+                    return ("line %d: %s reads present at revision %d and was created again (%s -> %s)" % (i + 1, k, present, line, out),
+                            INT_SIGNATURE)
+    return dump_hit
+
+
+def interrupted_cases(seed, tier):
+    if tier == "quick":
+        # right after the batch (crash / failing call), at the batch (failed condition), before it; one below the metrics wrapper
+        return [interrupted_expiry_case(seed, 0, "tikv", 1, "crash"), interrupted_expiry_case(seed, 1, "tikv", 1, "f"),
+                interrupted_expiry_case(seed, 2, "metrics-tikv", 0, "c"), interrupted_expiry_case(seed, 3, "tikv", 0, "crash"),
+                interrupted_expiry_case(seed, 4, "tikv", 0, "iter")]
+    return [interrupted_expiry_case(seed, i, "metrics-tikv" if i % 5 == 4 else "tikv") for i in range(60)] + \
+        [interrupted_expiry_case(seed, 100 + i, ["tikv", "metrics-tikv"][i % 2], 0, "iter") for i in range(6)]
+
+
 def race_case(seed, i, engine):
     """a compaction stepped through its storage calls, racing client writes to the keys being compacted
     (re-creates of deleted keys, updates, deletes) — on tikv the scan reads the snapshot of the timestamp taken
@@ -312,7 +532,9 @@ ALL_ENGINES = ENGINES + ["metrics-memkv", "metrics-tikv"]   # metrics-: failures
 def check(rep, tier, seed):
     n_hist = 8 if tier == "quick" else 120
     r = rng_for(seed, "c07")
-    cases = []
+    # a ttl pass interrupted around the expiry batch (theorems KB.C07Atomic); first, so that its concrete failing input is
+    # what a violation names
+    cases = interrupted_cases(seed, tier)
     for i in range(n_hist):
         for m in masks(tier, r):
             eng = ALL_ENGINES[(i + len(m)) % 5]
@@ -335,7 +557,7 @@ def check(rep, tier, seed):
     # what the CAS-class entries of the masks actually hit, per engine and kind of delete call
     hits = {}
     for c in cases:
-        if c.meta.get("race") or c.meta.get("expiry"):
+        if c.meta.get("race") or c.meta.get("expiry") or c.meta.get("interrupted"):
             continue
         for kind in cas_hits(c):
             key = "%s/%s" % (c.meta["engine"], kind)
@@ -343,9 +565,10 @@ def check(rep, tier, seed):
     rep.cov["cas_class_delete_failures"] = dict(sorted(hits.items()))
     from .. import sched
     pick = lambda c: (sched.oracle_c01(c) or sched.oracle_cf_justified(c) or hist.check_reads(c)) if c.meta.get("race") else \
-        expiry_oracle(c) if c.meta.get("expiry") else oracle(c)
+        interrupted_oracle(c) if c.meta.get("interrupted") else expiry_oracle(c) if c.meta.get("expiry") else oracle(c)
     if core.judge(rep, "C07", cases, pick):
         return
+    interrupted_vacuity("C07", cases)
     # the injected failures must have been what the masks say (the check would be vacuous otherwise)
     for c in cases:
         if c.meta.get("directed"):
